@@ -232,6 +232,50 @@ def field_read(value: Term, i) -> Optional[Term]:
     return ("call", ("ext", "int.from_bytes"), (src, const(order)), kws)
 
 
+def bytes_compose(t) -> Optional[Term]:
+    """(X[i] << 8) | X[i+1]  (or +, any order, n bytes)  ->  int.from_bytes(X[i:i+n], 'big');  X[i] | (X[i+1] << 8)  ->  ... 'little'.
+    The indices may be terms (X[s + 2]): adjacency is decided on their affine forms."""
+    parts = []
+
+    def collect(x):
+        if x[0] == "bin" and x[1] in ("|", "+"):
+            collect(x[2])
+            collect(x[3])
+        else:
+            parts.append(x)
+    collect(t)
+    if not (2 <= len(parts) <= 8):
+        return None
+    items = []          # (shift, buffer, index term)
+    for p in parts:
+        sh = 0
+        if p[0] == "bin" and p[1] == "<<" and is_const(p[3]) and isinstance(p[3][1], int) and p[3][1] % 8 == 0 and p[3][1] >= 0:
+            sh, p = p[3][1], p[2]
+        if p[0] != "sub":
+            return None
+        items.append((sh, p[1], p[2]))
+    if len({it[1] for it in items}) != 1 or sorted(it[0] for it in items) != [8 * k for k in range(len(items))]:
+        return None
+    from .affine import Lin, from_lin, lin
+    try:
+        byidx = sorted(items, key=lambda it: it[0])          # ascending shift
+        base = lin(byidx[0][2])
+        diffs = [lin(it[2]) - base for it in byidx]
+    except Exception:
+        return None
+    n = len(items)
+    if all(d == Lin(k) for k, d in enumerate(diffs)):
+        order, first = "little", byidx[0][2]
+    elif all(d == Lin(-k) for k, d in enumerate(diffs)):
+        order, first = "big", byidx[-1][2]
+    else:
+        return None
+    hi = from_lin(lin(first) + Lin(n))
+    if hi is None:
+        return None
+    return ("call", ("ext", "int.from_bytes"), (("slice", items[0][1], first, hi, None), const(order)), ())
+
+
 def subterms(t):
     """All sub-terms, pre-order."""
     todo = [t]
@@ -519,7 +563,27 @@ class TermAnalysis(Analysis):
                     st.env[f"{target.id}.{a}"] = v
                 self._returned_obj = None
         elif isinstance(target, (ast.Tuple, ast.List)):
-            if value[0] in ("tuple", "list") and len(value[1]) == len(target.elts):
+            stars = [i for i, t in enumerate(target.elts) if isinstance(t, ast.Starred)]
+            if len(stars) == 1 and value[0] in ("tuple", "list") and len(value[1]) >= len(target.elts) - 1 and not any(x[0] == "starred" for x in value[1]):
+                # a, *rest, z = (v1, ..., vn)
+                i = stars[0]
+                after = len(target.elts) - 1 - i
+                items = list(value[1])
+                for t, v in zip(target.elts[:i], items[:i]):
+                    self.assign(t, v, st)
+                self.assign(target.elts[i].value, ("list", tuple(items[i:len(items) - after])), st)
+                for t, v in zip(target.elts[i + 1:], items[len(items) - after:]):
+                    self.assign(t, v, st)
+            elif value[0] == "ite" and not stars and self._tuple_leaves(value, len(target.elts)):
+                # a gated tuple (typically the Optional[tuple] result of a helper): each target gets the gated element; a None alternative
+                # stays None - the unpacking is only reached where a guard has excluded it
+                def pick(v, i):
+                    if v[0] == "ite":
+                        return ("ite", v[1], pick(v[2], i), pick(v[3], i))
+                    return v[1][i] if v[0] in ("tuple", "list") else v
+                for i, t in enumerate(target.elts):
+                    self.assign(t, pick(value, i), st)
+            elif value[0] in ("tuple", "list") and len(value[1]) == len(target.elts):
                 for t, v in zip(target.elts, value[1]):
                     self.assign(t, v, st)
             elif is_const(value) and isinstance(value[1], (tuple, list)) and len(value[1]) == len(target.elts):
@@ -675,6 +739,11 @@ class TermAnalysis(Analysis):
                         self.record = saved
             return ("global", f"{r[1].name}.{r[2]}")
         return ("global", name)
+
+    def _tuple_leaves(self, v, n, depth=0) -> bool:
+        if v[0] == "ite" and depth < 12:
+            return self._tuple_leaves(v[2], n, depth + 1) and self._tuple_leaves(v[3], n, depth + 1)
+        return v == ("const", None) or (v[0] in ("tuple", "list") and len(v[1]) == n and not any(x[0] == "starred" for x in v[1]))
 
     def _record(self, t: Term):
         """{field: term} when `t` constructs a record class (NamedTuple / plain dataclass) from known arguments"""
@@ -846,6 +915,10 @@ class TermAnalysis(Analysis):
                     and _integer_valued_loose(a):
                 k_ = b[1].bit_length() - 1
                 return ("bin", ">>", a, const(k_)) if op == "//" else (("bin", "&", a, const(b[1] - 1)) if op == "%" else ("bin", "<<", a, const(k_)))
+            if op in ("|", "+"):
+                bc = bytes_compose(("bin", op, a, b))
+                if bc is not None:
+                    return bc
             return ("bin", op, a, b)
         if isinstance(e, ast.UnaryOp):
             a = self.ev(e.operand, st)
@@ -972,6 +1045,9 @@ class TermAnalysis(Analysis):
 
     def _call(self, e: ast.Call, st: State) -> Term:
         t = self._call0(e, st)
+        if t[0] == "call" and t[1] == ("ext", "slice") and 1 <= len(t[2]) <= 3 and not t[3] and \
+                all(is_const(a) and (a[1] is None or (isinstance(a[1], int) and not isinstance(a[1], bool))) for a in t[2]):
+            return const(slice(*[a[1] for a in t[2]]))          # a slice object with constant bounds
         if t[0] == "call" and t[1] == ("ext", "len") and len(t[2]) == 1 and not t[3] and t[2][0][0] in ("tuple", "list") \
                 and not any(x[0] == "starred" for x in t[2][0][1]):
             return const(len(t[2][0][1]))
@@ -1190,13 +1266,37 @@ class TermAnalysis(Analysis):
         def leaves(x):
             return leaves(x[2]) + leaves(x[3]) if x[0] == "ite" else [x]
         lv = leaves(v)
+        if is_const(v) and isinstance(v[1], tuple) and len(v[1]) == 2 and v[1][0] in ("operator.itemgetter", "operator.attrgetter") and len(args) == 1 and not kwargs:
+            # GETTER = itemgetter(k1, k2)/attrgetter("a", "b.c");  GETTER(x) is (x[k1], x[k2]) / (x.a, x.b.c)  (the bare element for one key)
+            x = args[0]
+            out = []
+            for k in v[1][1]:
+                if v[1][0].endswith("itemgetter"):
+                    if isinstance(k, slice):
+                        out.append(("slice", x, None if k.start is None else const(k.start), None if k.stop is None else const(k.stop),
+                                    None if k.step is None else const(k.step)))
+                    else:
+                        out.append(("sub", x, const(k)))
+                else:
+                    cur = x
+                    for part in k.split("."):
+                        cur = self._attr(cur, part)
+                    out.append(cur)
+            return out[0] if len(out) == 1 else ("tuple", tuple(out))
         # (a None alternative is not callable: such a leaf only survives where a guard has excluded it)
         if any(x[0] == "attr" and x[1][0] == "param" for x in lv) and all((x[0] == "attr" and x[1][0] == "param") or x == ("const", None) for x in lv):
             return _bound_method_call(self, v, args, kwargs)
         return ("call", ("dyn", v), args, kwargs)
 
     def _call0(self, e: ast.Call, st: State) -> Term:
-        args = tuple(self.ev(a, st) for a in e.args)
+        args = []
+        for a in e.args:
+            v = self.ev(a, st)
+            if v[0] == "starred" and v[1][0] in ("tuple", "list") and not any(x[0] == "starred" for x in v[1][1]):
+                args += list(v[1][1])          # f(*(a, b)) is f(a, b)
+            else:
+                args.append(v)
+        args = tuple(args)
         kwargs = tuple((k.arg or "**", self.ev(k.value, st)) for k in e.keywords)
         f = e.func
         # super().m(...)
@@ -1239,6 +1339,15 @@ class TermAnalysis(Analysis):
                     if target.kind == "classmethod" and self.fn.kind != "classmethod":
                         return ("call", ("func", target.qual), (("global", self.cls.qual),) + args, kwargs)
                     return ("call", ("func", target.qual), (recv,) + args, kwargs)
+                # a class-level callable constant (a getter object): self.GETTER(x) / cls.GETTER(x)
+                ca = self.prog.lookup_class_attr(self.cls, f.attr) if f.attr not in self.prog.attr_store_names() else None
+                if ca is not None:
+                    try:
+                        cv = self.prog.fold(ca[1], ca[0].module, ca[0])
+                    except Exception:
+                        cv = None
+                    if isinstance(cv, tuple) and len(cv) == 2 and cv[0] in ("operator.itemgetter", "operator.attrgetter"):
+                        return self._dyn_call(const(cv), args, kwargs)
             return ("call", ("meth", recv, f.attr), args, kwargs)
         if isinstance(f, ast.Name):
             if f.id in st.env:
